@@ -5,6 +5,12 @@
 // inlinable function.
 package verifhook
 
+import (
+	"os"
+	"sync/atomic"
+	"time"
+)
+
 // FSHook, when set, is called after every successful file-system mutation
 // performed by the storage packages.
 var FSHook func(kind, path string, a, b int64)
@@ -26,4 +32,25 @@ func Pause(name string) {
 	if h := PauseHook; h != nil {
 		h(name)
 	}
+}
+
+// SplitWrites, when positive, makes Write hand the buffer to the file in two halves that many
+// nanoseconds apart: what a concurrent reader of the file may see of one write while the
+// kernel is still copying it (it publishes a write page by page), made wide enough to hit.
+var SplitWrites atomic.Int64
+
+// Write is f.Write(b), optionally in two halves (see SplitWrites).
+func Write(f *os.File, b []byte) (int, error) {
+	d := SplitWrites.Load()
+	if d <= 0 || len(b) < 2 {
+		return f.Write(b)
+	}
+	h := len(b) / 2
+	n, err := f.Write(b[:h])
+	if err != nil {
+		return n, err
+	}
+	time.Sleep(time.Duration(d))
+	m, err := f.Write(b[h:])
+	return n + m, err
 }
